@@ -5,7 +5,7 @@ import Driver.C29
 namespace Mitum.Driver
 open Mitum Mitum.Prefix
 
-def c25Prefixes : List Bytes := [[97, 98], [97, 98, 0], [97, 98, 255], [98], [255, 255], [97]]
+def c25Prefixes : List Bytes := [[97, 98], [97, 98, 0], [97, 98, 255], [98], [255, 255], [97], [97, 99], [97, 255]]
 
 def toNatBytes (s : String) : Option Bytes := (unhex s).map (fun b => b.map UInt8.toNat)
 def hexNat (b : Bytes) : String := hexOf (b.map UInt8.ofNat)
